@@ -16,13 +16,22 @@ Genuine defects found at the pinned commit (KNOWN_FINDINGS.jsonl, proposed/fix-C
                                    unlink leaves the renamed entry behind
   C46:move-on-root-mount           on a disk mounted on "/" the new name is stored without its leading "/"
 
-Mutation evidence (tools/mutbuild.sh, quick tier): see the end of this file.
+
+Mutation evidence (tools/mutbuild.sh lib, quick tier):
+  caught  unlink does not give the size back (no decr_used_size)            -> sg_disk_get_size_used after unlink
+  caught  move keeps the old entry of the content map                       -> clean family, number/total of stored files
+  caught  growth by seek/write past the end not accounted (no incr_used_size) -> sg_disk_get_size_used after seek_cur
+  the proposed fixes (proposed/fix-C46-truncating-write.diff, fix-C46-move.diff) applied to the scratch tree: the check
+  passes with no deviation and no known finding left (4948 sequences).
 """
 import json, os
 import vlib
 import lib_common as L
 
 LEVEL = "model_checking"
+META = {"text": "spec/lib/FileSys.tla models files (size), disks (used size) and handles (position) with Open/Write/Write-inside/Seek/Read/Move/Unlink/Close; TLC checks on every behaviour of the small scope (2 names x 2 disks x 2 handles, 4 steps quick / 5 thorough) that used = sum of sizes, handles stay inside their file, read <= size - position and unlink gives back exactly the size; TLC then generates every 3-step sequence of that scope and seeded 40-step sequences over 5 names x 2 disks (one with initial content) x 3 handles, each with all observables after each step; the real plugin replays every sequence (host bob of hosts_with_disks.xml) and return value, size, tell, used size, total and listing of the stored files are compared step by step. A 'clean' family avoiding the three known defective call patterns is compared strictly to the end.",
+        "note": "Trusted: TLC, the driver's reading of FileSystemDiskExt::get_content() as 'the files stored on the disk'. One handle per file, moves to unused names on the same disk, capacity never approached, no remote mounts. Known findings (genuine defects, proposed fixes in /verif/proposed): truncating write keeps size_, handle not updated by move, move on a '/' mount drops the leading slash.",
+        "technique": "TLC model checking of FileSys (M) + TLC-generated behaviours replayed into the plugin (G)"}
 DRIVERS = {"c46drv": L.DRIVERS["c46drv"]}
 
 PLATFORM = os.path.join(vlib.REPO, "examples/platforms/hosts_with_disks.xml")
